@@ -123,7 +123,8 @@ def _skip_arg(ctx):
 
 def _skip_lib(ctx):
     for i, sp in enumerate(ctx["specs"]):
-        sp["lib"]["public.skipExportGlyphs"] = ["a", "c"] if i == 0 else ["c"]
+        # (the later masters name a glyph the first one does not: the union is built by the compiler)
+        sp["lib"]["public.skipExportGlyphs"] = ["a", "c"] if i == 0 else ["c", "acutecomb"]
     return True
 
 
@@ -308,6 +309,14 @@ def _second_axis_partial(ctx):
     return True
 
 
+def _named_default_layer(ctx):
+    # a <source> that names its UFO's default layer explicitly (layer="public.default")
+    if ctx["fn"] not in DSFUNCS:
+        return False
+    ctx["named_default_layer"] = True
+    return True
+
+
 def _vf_fontinfo(ctx):
     # format 5: an explicit <variable-font> with its own public.fontInfo overrides
     if ctx["fn"] not in VAR_FUNCS:
@@ -374,6 +383,7 @@ INGREDIENTS = {
     "lib-featureWriters": _feawriters_lib,
     "second-axis-partial-locations": _second_axis_partial,
     "vf-fontinfo": _vf_fontinfo,
+    "source-names-default-layer": _named_default_layer,
     "layerName": _layer_name,
     "cff2": _opt("cffVersion", 2, only={"compileOTF"}),
     "no-subr": _opt("optimizeCFF", 0, only={"compileOTF", "compileInterpolatableOTFsFromDS",
@@ -481,6 +491,9 @@ def build_sources(ctx, module):
         vfs = [{"name": "VerifVF", "axes": [a["name"] for a in axes], "lib": ctx["vf_lib"]}]
     ds = B.build_designspace(axes, sources, rules=ctx["rules"], lib=ctx["dslib"], module=module,
                              variable_fonts=vfs, format_version="5.0" if vfs else None)
+    if ctx.get("named_default_layer"):
+        last = ds.sources[-1]
+        last.layerName = last.font.layers.defaultLayer.name
     if ctx.get("unnamed"):
         for s_ in ds.sources:
             s_.name = None  # valid for a designspace built in memory
